@@ -384,9 +384,12 @@ def run(ctx, drv):
     if not ctx.quick():
         check_pool(ctx, "ProcessPoolEvaluator", mk_process, 7, 2)
     # chunk structure against the model
-    for n in range(0, 8):
+    chunks_fn = getattr(E, "_chunks", None)         # a private helper named in the property's anchors; judged through the evaluators if it is gone
+    if chunks_fn is None:
+        ctx.notes.append("evaluator._chunks not present: block-size correspondence skipped (chunking is still judged through the evaluators)")
+    for n in range(0, 8) if chunks_fn is not None else ():
         for lf in (-1, 0, 1, 2, 3, n, n + 1):
-            sizes = [len(c) for c in E._chunks(list(range(n)), lf)]
+            sizes = [len(c) for c in chunks_fn(list(range(n)), lf)]
             ask(f"chunks {lf} {n}", lambda g, sizes=sizes, n=n, lf=lf: None if g.split()[1:] == ([str(x) for x in sizes] or ["-"])
                 else ctx.disagree("_chunks block sizes", {"items": n, "n": lf}, sizes, g))
     # futures completing in any order (model) vs collection in submission order
